@@ -13,16 +13,42 @@
 (* path, the LATTICE of candidate routes around what newRoute would build: *)
 (* every amount and every time lock of the route independently -1 / 0 / +1.*)
 (* The abstract pathfinder answers with any candidate; the payment         *)
-(* simulation of Route.tla then runs.  Invariants:                         *)
+(* simulation of Route.tla then runs.                                      *)
+(* Universes added by follow-up b19c (one per extension of Route.tla):     *)
+(*   "foreign"  the 3-node graphs with requests whose source is not the    *)
+(*              pathfinding node: (self b, a -> c: the second hop is the   *)
+(*              LOCAL one, bandwidth at / below the amount), (self a,      *)
+(*              b -> c: one foreign hop, possibly disabled), (self c,      *)
+(*              a -> c: no local hop at all)                               *)
+(*   "onion"    RequestRoute requests whose final-hop payload (metadata    *)
+(*              none / empty / exactly filling / one byte over the 1300    *)
+(*              bytes for that path, payment secret, custom record,        *)
+(*              encrypted recipient data) is carried by 1-3 hop routes     *)
+(*              over two graphs (fee variants on the middle hop; the last  *)
+(*              hop's delta of 200 makes time locks two bytes wide);       *)
+(*              besides the amount/time-lock lattice the candidates drop   *)
+(*              or misplace the metadata                                   *)
+(*   "diamond"  a "diamond with tail" a-b-n-{t | m-t} plus the bypass      *)
+(*              a-x-t: 2-4 hop routes under fee / CLTV limits placed at    *)
+(*              and one below what each path needs (LimitsAreSums)         *)
+(* Invariants:                                                             *)
 (*   Payable              valid => never refused                           *)
 (*   DeliveredIsHopValid  delivered => the per-hop clauses hold            *)
 (*   BuildIsTight         the unperturbed route satisfies the fee / delta /*)
 (*                        final / totals clauses by construction           *)
+(*   DeliveredFits        delivered => the payloads fit the onion          *)
+(*   LimitsAreSums        for the unperturbed route the limit clauses say  *)
+(*                        the same as the sums of the per-node fees and    *)
+(*                        deltas along the path (an independent reading of *)
+(*                        "total fees" / "total time lock")                *)
+(*   SizeIsExact          BuildRoute's recorded sizes = HopSize            *)
 (***************************************************************************)
 EXTENDS Route
 
 CONSTANTS Universe     \* "small" (quick) | "rich" (thorough): 3 nodes a-b-c, parallel channel b-c
                        \* "line4": 4 nodes a-b-c-d ; "probe": one graph (non-vacuity probes)
+                       \* "foreign" | "onion" | "diamond": see above
+CONSTANTS Probe        \* name of the non-vacuity probe checked by RouteMC_vacuity.cfg ("none" otherwise)
 
 VARIABLE exact         \* the answered candidate is the unperturbed BuildRoute
 
@@ -83,16 +109,74 @@ Graphs4 ==
 ProbeGraphs ==
   { {Plain(1, "a", "b"), Patch(Plain(1, "b", "a"), [inBase |-> -50, inRate |-> -100000]),
      Patch(Plain(2, "b", "c"), [base |-> 7, rate |-> 30000, delta |-> 5]), Plain(2, "c", "b")} }
-Graphs == IF Universe = "probe" THEN ProbeGraphs ELSE IF NNodes = 3 THEN Graphs3 ELSE Graphs4
+\* "foreign": the forwarding hop b -> c is the local one when self = b: bandwidth variants
+FwdForeign == FwdSmall \cup { [base |-> 7, rate |-> 30000, delta |-> 5, bw |-> Amt],
+                              [base |-> 7, rate |-> 30000, delta |-> 5, bw |-> Amt - 1],
+                              [disabled |-> 1, bw |-> Amt + 500] }
+GraphsForeign ==
+  { {Patch(Plain(1, "a", "b"), f), Patch(Plain(1, "b", "a"), i), Patch(Plain(2, "b", "c"), o2),
+     Plain(2, "c", "b")}
+    : f \in FirstSmall, i \in InSmall, o2 \in FwdForeign }
+\* "onion": fees only so that amounts differ per hop; the subject is the payload
+GraphsOnion ==
+  { {Plain(1, "a", "b"), Plain(1, "b", "a"), Patch(Plain(2, "b", "c"), o2), Plain(2, "c", "b"),
+     Patch(Plain(4, "c", "d"), o4), Plain(4, "d", "c")}
+    : o2 \in {[delta |-> 2], [base |-> 7, rate |-> 30000, delta |-> 5]},
+      o4 \in {[base |-> 300, delta |-> 200]} }
+\* "diamond": tail a-b-n (1, 2), direct n-t (3), detour n-m-t (4, 5), bypass a-x-t (6, 7)
+DDirect == { [base |-> 500, delta |-> 1], [base |-> 50, delta |-> 9] }
+DDetour == { [base |-> 10, delta |-> 18], [base |-> 10, delta |-> 4, inBase |-> -5] }
+GraphsDiamond ==
+  { {Plain(1, "a", "b"), Plain(1, "b", "a"), Patch(Plain(2, "b", "n"), tl), Plain(2, "n", "b"),
+     Patch(Plain(3, "n", "t"), di), Plain(3, "t", "n"),
+     Patch(Plain(4, "n", "m"), d1), Patch(Plain(4, "m", "n"), [inBase |-> -3]),
+     Patch(Plain(5, "m", "t"), d2), Plain(5, "t", "m"),
+     Plain(6, "a", "x"), Plain(6, "x", "a"), Patch(Plain(7, "x", "t"), [base |-> 900, delta |-> 1]),
+     Plain(7, "t", "x")}
+    : tl \in {[base |-> 1, delta |-> 6], [rate |-> 1500, delta |-> 40]}, di \in DDirect,
+      d1 \in DDetour, d2 \in DDetour }
+Graphs == CASE Universe = "probe"   -> ProbeGraphs
+            [] Universe = "line4"   -> Graphs4
+            [] Universe = "foreign" -> GraphsForeign
+            [] Universe = "onion"   -> GraphsOnion
+            [] Universe = "diamond" -> GraphsDiamond
+            [] OTHER                -> Graphs3
 
-Req(dst) == [src |-> "a", dst |-> dst, amt |-> Amt, feeLimit |-> -1, cltvLimit |-> -1,
-             outChans |-> <<>>, lastHop |-> "", ignNodes |-> <<>>, ignPairs |-> <<>>, hints |-> <<>>,
-             finalDelta |-> FinalD, height |-> Height]
-Targets == IF NNodes = 3 THEN {"b", "c"} ELSE {"d"}
-PathsTo(G, dst) ==
+Req(dst) == [NoReq EXCEPT !.self = "a", !.src = "a", !.dst = dst, !.amt = Amt, !.pay = Amt,
+                          !.finalDelta = FinalD, !.height = Height]
+MaxHops == CASE Universe \in {"line4", "onion"} -> 3 [] Universe = "diamond" -> 4 [] OTHER -> 2
+PathsFrom(G, src, dst) ==
   LET ids == {p.id : p \in G}
-      cand == UNION {[1..n -> ids] : n \in 1..(NNodes - 1)} IN
-  {p \in cand : IsPath(G, "a", p) /\ PathNodes(G, "a", p)[Len(p)] = dst}
+      cand == UNION {[1..n -> ids] : n \in 1..MaxHops} IN
+  {p \in cand : /\ IsPath(G, src, p) /\ PathNodes(G, src, p)[Len(p)] = dst
+                /\ \A i, j \in 0..Len(p) : i < j => PathNodes(G, src, p)[i] # PathNodes(G, src, p)[j]}
+
+\* the metadata length with which the payloads of `path` fill the onion exactly (both length
+\* prefixes are 3 bytes from 253 on, so the size is linear in the length there)
+MetaFill(G, q, path) == 1000 + MaxPayload - RouteSize(BuildRoute(G, [q EXCEPT !.meta = 1000], path))
+
+\* the requests of a universe against graph G, each with the paths that serve it
+Asks(G) ==
+  CASE Universe = "foreign" ->
+         UNION { { <<[Req(t[3]) EXCEPT !.via = "FindRoute", !.self = t[1], !.src = t[2]], p>> :
+                     p \in PathsFrom(G, t[2], t[3]) }
+                 : t \in {<<"b", "a", "c">>, <<"a", "b", "c">>, <<"c", "a", "c">>} }
+    [] Universe = "onion" ->
+         LET Xs == { <<0, <<>>, -1>>, <<1, <<>>, -1>>, <<1, <<[t |-> 65537, n |-> 5]>>, -1>>, <<0, <<>>, 40>> }
+             Q(dst, x) == [Req(dst) EXCEPT !.via = "RequestRoute", !.payAddr = x[1], !.recs = x[2], !.enc = x[3]]
+         IN UNION { UNION { UNION { { <<[Q(dst, x) EXCEPT !.meta = m], p>> :
+                                        m \in {-1, 0} \cup {MetaFill(G, Q(dst, x), p) + e : e \in {-1, 0, 1}} }
+                                    : x \in Xs }
+                            : p \in PathsFrom(G, "a", dst) }
+                    : dst \in {"b", "c", "d"} }
+    [] Universe = "diamond" ->
+         UNION { { <<[Req("t") EXCEPT !.feeLimit = fl, !.cltvLimit = cl], p>> :
+                     fl \in {-1, BuildRoute(G, Req("t"), p).totalFees, BuildRoute(G, Req("t"), p).totalFees - 1},
+                     cl \in {-1, BuildRoute(G, Req("t"), p).totalTL - Height,
+                             BuildRoute(G, Req("t"), p).totalTL - Height - 1} }
+                 : p \in PathsFrom(G, "a", "t") }
+    [] OTHER -> UNION { { <<Req(dst), p>> : p \in PathsFrom(G, "a", dst) }
+                        : dst \in (IF NNodes = 3 THEN {"b", "c"} ELSE {"d"}) }
 
 \* the candidate lattice around r: da[k] is added to the amount on hop k's channel
 \* (k = 1: the total), dt[k] to its expiry, df to the amount the recipient is told,
@@ -109,20 +193,32 @@ Perturb(r, da, dt, df, dl) ==
             !.totalFees = r.totalAmt + da[1] - amtOf(n),
             !.hops = [k \in 1..n |-> [r.hops[k] EXCEPT !.amt = amtOf(k), !.tl = tlOf(k),
                                                         !.fee = IF k = n THEN 0 ELSE onAmt(k) - amtOf(k)]]]
+\* the whole lattice for the 2-3 hop universes, at most one coordinate moved in the new ones
+Big == Universe \in {"onion", "diamond", "foreign"}
+Lattice(n) == IF Big THEN {f \in [1..n -> D] : Cardinality({k \in 1..n : f[k] # 0}) <= 1} ELSE [1..n -> D]
+\* payload candidates (universe "onion"): the metadata dropped, or carried by the first hop
+Payloads == IF Universe = "onion" THEN {"asked", "dropMeta", "metaFirst"} ELSE {"asked"}
+Repack(r, how) ==
+  LET n == Len(r.hops)
+      moved == CASE how = "dropMeta"  -> [r EXCEPT !.hops[n].meta = -1]
+                 [] how = "metaFirst" -> [r EXCEPT !.hops[1].meta = r.hops[n].meta]
+                 [] OTHER             -> r
+  IN [moved EXCEPT !.hops = [k \in 1..n |-> [moved.hops[k] EXCEPT !.size = HopSize(moved, k)]]]
 
 MCInit == Init /\ exact = FALSE
 Install == /\ status = "idle" /\ g = {}
            /\ \E G \in Graphs : NewGraph(G)
            /\ exact' = FALSE
 Ask == /\ g # {} /\ status = "idle" /\ res = NoRoute
-       /\ \E dst \in Targets : \E path \in PathsTo(g, dst) :
-            LET q == Req(dst)
+       /\ \E ask \in Asks(g) :
+            LET q == ask[1]
+                path == ask[2]
                 r == BuildRoute(g, q, path)
                 n == Len(path) IN
-            \E da \in [1..n -> D], dt \in [1..n -> D],
-               df \in (IF NNodes = 4 THEN {0} ELSE {0, 1}), dl \in (IF NNodes = 4 THEN {0} ELSE D) :
-              /\ Query(q, Perturb(r, da, dt, df, dl))
-              /\ exact' = (df = 0 /\ dl = 0 /\ \A k \in 1..n : da[k] = 0 /\ dt[k] = 0)
+            \E da \in Lattice(n), dt \in Lattice(n), how \in Payloads,
+               df \in (IF NNodes = 4 \/ Big THEN {0} ELSE {0, 1}), dl \in (IF NNodes = 4 \/ Big THEN {0} ELSE D) :
+              /\ Query(q, Repack(Perturb(r, da, dt, df, dl), how))
+              /\ exact' = (df = 0 /\ dl = 0 /\ how = "asked" /\ \A k \in 1..n : da[k] = 0 /\ dt[k] = 0)
 MCNext == Install \/ Ask \/ (Pay /\ UNCHANGED exact)
 MCSpec == MCInit /\ [][MCNext]_mcvars
 
@@ -134,6 +230,20 @@ BuildIsTight == (exact /\ res.found = 1) =>
        AmtOn(res, k) - AmtOn(res, k + 1) =
          NodeFee(HopPol(g, req, res, k + 1), InPol(g, res.hops[k].chan, NodeAt(req, res, k)), AmtOn(res, k + 1))
 
+\* the limit clauses read "total" as the route's totals; for the unperturbed route that is the
+\* sum of what the forwarding nodes charge and of their deltas (+ final delta and padding)
+RECURSIVE SumFrom(_, _, _)
+SumFrom(f, k, n) == IF k > n THEN 0 ELSE f[k] + SumFrom(f, k + 1, n)
+LimitsAreSums == (exact /\ res.found = 1) =>
+  LET n == N(res)
+      fees == [k \in 1..n |-> IF k = n THEN 0 ELSE
+                 NodeFee(HopPol(g, req, res, k + 1), InPol(g, res.hops[k].chan, NodeAt(req, res, k)), AmtOn(res, k + 1))]
+      dels == [k \in 1..n |-> IF k = n THEN 0 ELSE HopPol(g, req, res, k + 1).delta] IN
+  /\ FeeLimitOk(g, req, res) <=> (req.feeLimit < 0 \/ SumFrom(fees, 1, n) <= req.feeLimit)
+  /\ CltvLimitOk(g, req, res) <=> (req.cltvLimit < 0 \/
+                                   SumFrom(dels, 1, n) + req.finalDelta + Pad(req) <= req.cltvLimit)
+SizeIsExact == (exact /\ res.found = 1) => SizeModelOk(res)
+
 \* non-vacuity probes (expected to be VIOLATED; the orchestrator checks that they are)
 NoValidRoute      == ~(res.found = 1 /\ ValidRoute(g, req, res))
 NoValidTwoHop     == ~(res.found = 1 /\ N(res) >= 2 /\ ValidRoute(g, req, res) /\ status = "delivered")
@@ -141,4 +251,17 @@ NoFloorCase       == ~(res.found = 1 /\ N(res) >= 2 /\ ValidRoute(g, req, res) /
                        \E k \in 1..(N(res) - 1) : AmtOn(res, k) = AmtOn(res, k + 1) /\
                           OutFee(HopPol(g, req, res, k + 1), AmtOn(res, k + 1)) > 0)
 NoRefusal         == ~Refused
+NoOnionRefusal    == status # "OnionTooLarge"
+NoFullOnion       == ~(status = "delivered" /\ RouteSize(res) = MaxPayload /\ N(res) >= 2)
+NoForeignDisabled == status # "ChannelDisabled"
+NoLocalMiddle     == ~(status = "delivered" /\ N(res) >= 2 /\ Local(req, res, 2))
+NoLateLimit       == ~(res.found = 1 /\ N(res) = 4 /\ exact /\ req.cltvLimit >= 0 /\
+                       ~CltvLimitOk(g, req, res))
+ProbeInv == CASE Probe = "NoFloorCase"       -> NoFloorCase
+               [] Probe = "NoOnionRefusal"    -> NoOnionRefusal
+               [] Probe = "NoFullOnion"       -> NoFullOnion
+               [] Probe = "NoForeignDisabled" -> NoForeignDisabled
+               [] Probe = "NoLocalMiddle"     -> NoLocalMiddle
+               [] Probe = "NoLateLimit"       -> NoLateLimit
+               [] OTHER                       -> TRUE
 =============================================================================
